@@ -970,19 +970,10 @@ MUTANTS = [
         \"\"\"Load a raw file and the associated config.\"\"\"
         file_config = Linter._child_config(root_config, os.path.dirname(os.path.abspath(fname)))
 """),
-    # (the shape of seeded change B) the rule reference map is memoised on the class and handed out by reference
-    ("reference_map_memoised_on_the_class", "sqlfluff/core/rules/base.py",
-     "    def rule_reference_map(self) -> dict[str, set[str]]:\n",
-     """    _ref_memo: dict = {}
-
-    def rule_reference_map(self) -> dict[str, set[str]]:
-        key = tuple(sorted(self._register))
-        if key not in self._ref_memo:
-            self._ref_memo[key] = self._rule_reference_map()
-        return self._ref_memo[key]
-
-    def _rule_reference_map(self) -> dict[str, set[str]]:
-"""),
+    # NOTE: the mutant `reference_map_memoised_on_the_class` (the shape of seeded change B: rule_reference_map memoised on the class and
+    # handed out by reference) was retired: since /repo 01d856a allowed_rule_ref_map copies the map before extending it, a shared map
+    # is no longer written, so that edit alone does not break the property any more (the state inventory still reports the new
+    # process-lifetime cache as undeclared: exit 2, undecided).
     ("block_stack_not_popped", "sqlfluff/core/parser/lexer.py", "        uuid = self._stack.pop()\n", "        uuid = self._stack[-1]\n"),
     ("block_memo_overwritten_on_every_enter", "sqlfluff/core/parser/lexer.py", "        uuid = self._map.get(key, None)\n", "        uuid = None\n"),
     ("dedupe_buffer_kept_for_the_whole_process", "sqlfluff/core/linter/linted_file.py",
